@@ -21,7 +21,7 @@
      test   : for every timer, its unreported values are the values of acc
               for that timer, in order. *)
 From Coq Require Import ZArith List Bool.
-From Tally Require Import Base.Obs Model.Buckets Model.Timer Proof.TimerP.
+From Tally Require Import Base.ObsCore Model.Buckets Model.Timer Proof.TimerP.
 Import ListNotations.
 Open Scope Z_scope.
 
